@@ -160,6 +160,33 @@ def unmapped(smi: str) -> str:
     return Chem.MolToSmiles(m2) if m2 is not None else Chem.MolToSmiles(m)
 
 
+def skeleton(smi: str) -> str:
+    """A key that does not depend on where a Kekule structure puts its double bonds: connectivity, elements, charges and
+    per-atom hydrogen counts, every bond written as single.  (A product in which a formerly aromatic ring is no longer
+    aromatic is written by RDKit with one of several equivalent bond placements, depending on the atom order.)"""
+    m = mol_from_smiles(smi)
+    if m is None:
+        return "?"
+    for a in m.GetAtoms():
+        a.SetAtomMapNum(0)
+    Chem.RemoveStereochemistry(m)
+    try:
+        m = Chem.RemoveHs(m)
+    except Exception:
+        pass
+    rw = Chem.RWMol(m)
+    for a in rw.GetAtoms():
+        h = a.GetTotalNumHs()
+        a.SetNoImplicit(True)
+        a.SetNumExplicitHs(h)
+        a.SetIsAromatic(False)
+        a.SetNumRadicalElectrons(0)
+    for b in rw.GetBonds():
+        b.SetBondType(Chem.BondType.SINGLE)
+        b.SetIsAromatic(False)
+    return Chem.MolToSmiles(rw)
+
+
 # ---------------------------------------------------------------- metamorphic rewriters
 def renumber_aam(rsmi: str, rng: random.Random) -> Tuple[str, Dict[int, int]]:
     maps = sorted({int(x) for x in re.findall(r":(\d+)\]", rsmi)})
